@@ -241,10 +241,25 @@ def step_strategy(draw, rich_opts: bool = True):
     return step
 
 
+FAULTS = ('bad_src', 'bad_src', 'bad_opt_name', 'bad_opt_value', 'consumed_fst', 'nonroot_fst', 'ouroboros', 'wrong_cat', 'wrong_cat',
+          'other_tree_child', 'bad_index', 'coerce_off')
+BAD_SRCS = ('+++', 'if', '(', 'a b', ')', 'x = ', 'def', '1 +', 'a, , b', 'lambda', '\n  x\n y', 'except', '@', 'a = = b', '$', '\'', 'f"{"')
+BAD_OPTS = ({'bogus': 1}, {'trivia': 'nope'}, {'pars': 5}, {'Norm': True}, {'pep8space': 3}, {'trivia': ('block', 'line', 'x')},
+            {'op_side': 'middle'}, {'set_norm': 'x'}, {'to': 1}, {'docstr': 'maybe'}, {'raw': 'yes'}, {'args_as': 'zzz'}, {'elif_': None, 'zzz': 0})
+
+
 @st.composite
-def case_strategy(draw, max_steps: int = 6, max_lines: int = 50, rich_opts: bool = True):
+def case_strategy(draw, max_steps: int = 6, max_lines: int = 50, rich_opts: bool = True, fault_rate: int = 0):
+    """`fault_rate` in tenths: share of steps that carry a deliberately invalid request (C12)."""
+
     src = draw(gen.program(max_lines))
     steps = draw(st.lists(step_strategy(rich_opts), min_size=1, max_size=max_steps))
+
+    if fault_rate:
+        for step in steps:
+            if draw(st.integers(0, 9)) < fault_rate:
+                step['fault'] = draw(st.sampled_from(FAULTS))
+                step['fsel'] = draw(st.integers(0, 1000))
 
     return {'src': src, 'steps': steps}
 
@@ -330,7 +345,7 @@ def resolve_idx(v: int, n: int):
 class Applied:
     """What a step did, for the observers."""
 
-    __slots__ = ('op', 'kind', 'parent_cls', 'field', 'target_cls', 'cat', 'code_src', 'form', 'opts', 'raised', 'exc', 'desc',
+    __slots__ = ('fault', 'op', 'kind', 'parent_cls', 'field', 'target_cls', 'cat', 'code_src', 'form', 'opts', 'raised', 'exc', 'desc',
                  'target_lines', 'target_path', 'idx', 'extent')
 
     def __init__(self):
@@ -366,6 +381,13 @@ def apply_step(root: FST, step: dict, base_opts: dict) -> Applied:
     ap = Applied()
     op = ap.op = step['op']
     opts = {**base_opts, **{k: (tuple(v) if isinstance(v, list) else v) for k, v in step.get('opts', {}).items()}}
+    fault = ap.fault = step.get('fault')
+
+    if fault in ('bad_opt_name', 'bad_opt_value'):
+        bad = pick(BAD_OPTS, step['fsel'])
+        opts = {**opts, **bad}
+    elif fault == 'coerce_off':
+        opts = {**opts, 'coerce': False}
     ap.opts = opts
     ap.form = step['form']
     root_ast = root.a
@@ -394,8 +416,39 @@ def apply_step(root: FST, step: dict, base_opts: dict) -> Applied:
                 dcat = pick(('stmt', 'expr', 'expr_store', 'pattern', 'arg', 'keyword', 'alias', 'withitem', 'ExceptHandler',
                              'match_case', 'comprehension', 'type_param', 'operator', 'cmpop', 'arguments'), step['dsel'] // 3)
 
+            if fault == 'wrong_cat':
+                dcat = pick(tuple(c for c in ('stmt', 'expr', 'pattern', 'arg', 'keyword', 'alias', 'withitem', 'ExceptHandler',
+                                              'match_case', 'comprehension', 'type_param', 'operator', 'cmpop', 'arguments', 'boolop')
+                                  if c != cat and not (c == 'expr' and cat == 'expr_store')), step['fsel'])
+
             code_src = ap.code_src = donor_source(dcat, step)
-            code = make_code(code_src, dcat, step['form'])
+
+            if fault == 'bad_src':
+                code_src = ap.code_src = pick(BAD_SRCS, step['fsel'])
+                code = code_src
+                ap.form = 'src'
+            else:
+                code = make_code(code_src, dcat, 'fst' if fault in ('consumed_fst', 'nonroot_fst') else step['form'])
+
+            if fault == 'consumed_fst':
+                try:
+                    FST('[x]', 'exec').body[0].value.elts[0].replace(code)  # consume it somewhere else first
+                except Exception:
+                    pass
+            elif fault == 'nonroot_fst':
+                kid = code.first_child()
+
+                if kid is None:
+                    raise StepSkipped('fault_nonroot_no_child')
+
+                code = kid
+            elif fault == 'ouroboros':
+                code = f.parent if step['fsel'] % 2 and f.parent is not None else root
+                ap.code_src = '<ancestor>'
+            elif fault == 'other_tree_child':
+                other = FST('if a:\n    b = [c, d]\nelse:\n    e', 'exec')
+                code = pick([other.body[0], other.body[0].body[0], other.body[0].body[0].value, other.body[0].test], step['fsel'])
+                ap.code_src = '<child of other tree>'
 
             if op == 'setitem' and idx is None:
                 op = 'setattr'
@@ -500,7 +553,18 @@ def apply_step(root: FST, step: dict, base_opts: dict) -> Applied:
         form = step['form']
         one = step.get('one', False)
 
-        if form == 'src' or op in ('delslice', 'get_slice_cut', 'view_remove'):
+        if fault == 'bad_index':
+            start = pick((99, -99, 'end', 5, 'x', None, 2.5), step['fsel'])
+            stop = pick((-99, 0, 3, 'y', 99), step['fsel'] // 7)
+            ap.idx = (start, stop)
+
+        if fault == 'bad_src':
+            code = code_src = ap.code_src = pick(BAD_SRCS, step['fsel'])
+            ap.form = 'src'
+        elif fault == 'ouroboros':
+            code = root
+            ap.code_src = '<root>'
+        elif form == 'src' or op in ('delslice', 'get_slice_cut', 'view_remove'):
             code = code_src
         else:
             # node forms of slices: build through pfst's own documented slice parse modes is C05's business; here only
@@ -556,7 +620,7 @@ def apply_step(root: FST, step: dict, base_opts: dict) -> Applied:
             else:
                 raise StepSkipped(f'unknown_op:{op}')
 
-    ap.desc = f'{ap.op} {ap.parent_cls}.{ap.field}[{ap.idx}] {ap.target_cls or ""} <- {ap.form}:{(ap.code_src or "")[:60]!r} {step.get("opts") or ""}'
+    ap.desc = f'{"FAULT:" + fault + " " if fault else ""}{ap.op} {ap.parent_cls}.{ap.field}[{ap.idx}] {ap.target_cls or ""} <- {ap.form}:{(ap.code_src or "")[:60]!r} {step.get("opts") or ""}'
 
     try:
         call()
